@@ -13,7 +13,7 @@ theorem mantVal_int (neg : Bool) (ip : List Char) (e : Int) :
 /-- the integer result `roundInt` denotes `(h t + inc) · 10^(e0 + n − |h t|)` -/
 theorem roundInt_val (neg : Bool) (h : Char) (t : List Char) (inc : Bool) (e0 : Int) (n : Nat)
     (hh : h.isDigit = true) (ht : AllDig t) (hn : (incStrip t inc).1.length + 1 ≤ n)
-    (hg : e0.natAbs + n + 2 < 9223372036854775808) :
+    (hg : -9223372036854775808 ≤ e0 ∧ e0 + (n : Int) < 9223372036854775808) :
     mantVal neg (roundInt h (incStrip t inc).1 (incStrip t inc).2
         (wrap64 (e0 + ((n : Int) - ((1 + (incStrip t inc).1.length : Nat) : Int))))) =
       dval neg (natOf (h :: t) + (if inc then 1 else 0)) (e0 + (n : Int) - ((t.length + 1 : Nat) : Int)) := by
@@ -94,7 +94,7 @@ def cutPos (m : Mant) (p : Nat) : Nat :=
 
 theorem roundIp_val (neg : Bool) (h : Char) (tl : List Char) (p : Nat) (inc : Bool) (e0 : Int)
     (hh : h.isDigit = true) (ht : AllDig tl) (hp1 : 1 ≤ p) (hpn : p ≤ tl.length + 1)
-    (hg : e0.natAbs + (tl.length + 1) + 2 < 9223372036854775808) :
+    (hg : -9223372036854775808 ≤ e0 ∧ e0 + ((tl.length + 1 : Nat) : Int) < 9223372036854775808) :
     mantVal neg (roundIp h tl p inc e0) =
       dval neg (natOf ((h :: tl).take p) + (if inc then 1 else 0)) (e0 + ((tl.length + 1 : Nat) : Int) - (p : Int)) := by
   unfold roundIp
@@ -117,7 +117,7 @@ theorem mantVal_eq (neg : Bool) (ip fp : List Char) (e : Int) :
 
 /-- the precision branch either leaves the mantissa alone or produces the half-up cut of its digits -/
 theorem roundP_val (neg : Bool) (m : Mant) (hm : MantWF m.ip m.fp) (p : Nat) (hp : 0 < p)
-    (hg : m.e.natAbs + mlen m.ip m.fp + 3 < 9223372036854775808) :
+    (hg : -9223372036854775808 ≤ m.e ∧ m.e + (mlen m.ip m.fp : Int) < 9223372036854775808) :
     roundP m p = m ∨
     (cutPos m p < (m.ip ++ m.fp).length ∧
       mantVal neg (roundP m p) =
